@@ -255,7 +255,8 @@ impl Layer {
         }
         assert!(index >= 0, "line out of range");
         if index > self.lines.len() as i32 {
-            self.lines.resize(index as usize, Line::create(self.size.width));
+            // lines are stored lazily: the gap is filled with empty lines (a line that is shorter than the layer reads as invisible cells)
+            self.lines.resize(index as usize, Line::default());
         }
 
         self.lines.insert(index as usize, line);
